@@ -441,8 +441,11 @@ def run(ctx: Ctx, rs: RuleSet, tier: str):
            'an unset argument is compared through the parameter default',
            ctx.loc(cb, cb.node))
   # one-sided missing -> False; v1 != v2 -> False
-  rs.check(any('is missing or' in t for t in src_tests) and any(
-      t == 'v1 != v2' or ' != ' in t and 'v1' in t and 'v2' in t
+  opn = [nm for _, nm in operands] or ['v1', 'v2']
+  one_sided = {f'{a_} is missing or {b_} is missing'
+               for a_, b_ in (opn, opn[::-1])} if len(opn) == 2 else set()
+  rs.check(any(t in one_sided for t in src_tests) and any(
+      ' != ' in t and all(nm in t for nm in opn)
       for t in src_tests), rule, f'{cb.qualname}:value-compare',
            'a value missing on one side or unequal values make the result '
            'False', ctx.loc(cb, cb.node), nontrivial=False)
